@@ -27,11 +27,18 @@ setup, teardown = C.setup, C.teardown
 def strategy(tier):
     from jv import gen
 
+    def scn_with_poll(**kw):
+        # the poll interval is also how long a submitter trusts its last squeue answer: seconds, a minute, five minutes
+        return st.tuples(gen.scenarios(**kw), st.sampled_from([1, 1, 1, 60, 300])).map(lambda t: dict(t[0], poll=t[1]))
+
     def cases(**kw):
-        return st.fixed_dictionaries({"scn": gen.scenarios(**kw), "schedule": gen.schedules(),
+        return st.fixed_dictionaries({"scn": scn_with_poll(**kw), "schedule": gen.schedules(),
                                       # resubmit-jobs issued the moment the submission is complete and the role is free:
                                       # the batch that completed it is then still running
                                       "resubmit_at_completion": st.sampled_from([False, False, True]),
+                                      # operator rounds (try-submit-jobs / show-status) near the end of batches: rounds that
+                                      # start with several free slots
+                                      "late": C.late_ops(2),
                                       "exotic": st.lists(st.fixed_dictionaries({"at": st.integers(10, 400), "steps": st.integers(10, 200),
                                                                                  "which": st.integers(0, 7)}), max_size=3),
                                       # the limits also hold while the scheduler's commands fail: the n-th squeue call fails
@@ -40,7 +47,8 @@ def strategy(tier):
                                           st.fixed_dictionaries({"kind": st.sampled_from(["squeue_fail_series", "squeue_fail_series",
                                                                                            "squeue_fail_once"]), "nth": st.integers(0, 12),
                                                                  "len": st.sampled_from([7, 7, 14, 21])}),
-                                          st.fixed_dictionaries({"kind": st.just("sbatch_fail_once"), "nth": st.integers(0, 4)})),
+                                          st.fixed_dictionaries({"kind": st.sampled_from(["sbatch_fail_once", "sbatch_fail_series"]),
+                                                                 "nth": st.integers(0, 4)})),
                                           max_size=2)})
 
     return st.one_of(cases(), cases(), cases(), cases(mode="local", max_groups=1))
@@ -62,6 +70,7 @@ def run_case(case):
                 sim.recovery_rounds = 0
 
             sim.w.user_events.append(("resubmit", pred, fire, True))
+        C.install_late_ops(sim, case.get("late"))
         sim.submit()
         outcome = sim.drive()
         if case.get("resubmit_at_completion") and any(r["k"] == "user" and r["cmd"] == "resubmit" for r in sim.w.log):
